@@ -207,7 +207,7 @@ func (c *Channel) Invoke(ctx context.Context, method string, req, resp interface
 		return status.Errorf(codes.Internal, "request message is nil")
 	}
 
-	if method[0] != '/' {
+	if method == "" || method[0] != '/' {
 		method = "/" + method
 	}
 	ctx, err := internal.ApplyPerRPCCreds(ctx, copts, fmt.Sprintf("inproc:0%s", method), true)
@@ -216,6 +216,10 @@ func (c *Channel) Invoke(ctx context.Context, method string, req, resp interface
 	}
 
 	strs := strings.SplitN(method[1:], "/", 2)
+	if len(strs) != 2 {
+		// not of the form "/service/method"
+		return status.Errorf(codes.Unimplemented, "malformed method name: %q", method)
+	}
 	serviceName := strs[0]
 	methodName := strs[1]
 	sd, handler := c.handlers.QueryService(serviceName)
@@ -346,7 +350,7 @@ func (c *Channel) NewStream(ctx context.Context, desc *grpc.StreamDesc, method s
 	copts := internal.GetCallOptions(opts)
 	copts.SetPeer(&inprocessPeer)
 
-	if method[0] != '/' {
+	if method == "" || method[0] != '/' {
 		method = "/" + method
 	}
 	ctx, err := internal.ApplyPerRPCCreds(ctx, copts, fmt.Sprintf("inproc:0%s", method), true)
@@ -355,6 +359,10 @@ func (c *Channel) NewStream(ctx context.Context, desc *grpc.StreamDesc, method s
 	}
 
 	strs := strings.SplitN(method[1:], "/", 2)
+	if len(strs) != 2 {
+		// not of the form "/service/method"
+		return nil, status.Errorf(codes.Unimplemented, "malformed method name: %q", method)
+	}
 	// The given StreamDesc is a client-created object, which means the Handler
 	// field is not populated. So we have to look up from the channel config the
 	// corresponding StreamDesc that includes a handler.
